@@ -1108,18 +1108,41 @@ def gen_c15(seed, tier, cap_for=lambda k: 2):
             sc.ctr_cleanup(kind, 0)
             sc.par_cleanup(kind, 0)
             sc.quiesce()
+            if cyc % 2 == 1:
+                # a re-initialisation that runs out of memory, on a handle the caller scribbled over
+                sc.ctr_init(kind, 0, cap=cap_for(kind), fail=1, prefill=0xA5)
+                sc.par_init(kind, 0, cap=cap_for(kind), fail=1, prefill=0x5A)
+                sc.ctr_cleanup(kind, 0)
+                par_use_all(sc, kind, 0)
+                sc.par_cleanup(kind, 0)
+                ctr_use_all(sc, kind, 0)
+                sc.quiesce()
     return sc
 
 
-def gen_c16(seed, tier, caps):
-    """complete fault enumeration: each init x back end x prior handle content x the one allocation"""
+def gen_c16_probe(caps):
+    """one successful init per <function, back end>: tells how many allocation requests it makes"""
+    sc = Sc(0, placements=False)
+    for kind in ("s128", "s64", "mantis"):
+        for cap in caps[kind]:
+            for fam in ("ctr", "par"):
+                sc.reset("c16-probe-%s-%s-cap%d" % (fam, kind, cap))
+                (sc.ctr_init if fam == "ctr" else sc.par_init)(kind, 0, cap=cap)
+                (sc.ctr_cleanup if fam == "ctr" else sc.par_cleanup)(kind, 0)
+    return sc
+
+
+def gen_c16(seed, tier, caps, na_map):
+    """complete fault enumeration: each init x back end x prior handle content x EACH allocation
+    request the init makes (as observed on a successful init of the same function and back end)"""
     sc = Sc(seed)
     n = 0
     for kind in ("s128", "s64", "mantis"):
         for cap in caps[kind]:
             for fam in ("ctr", "par"):
+              for nth in range(1, na_map.get((fam, kind, cap), 1) + 1):
                 for prior in ("zero", "ff", "5a", "a5ramp", "dead", "failed"):
-                    sc.reset("c16-%s-%s-cap%d-%s" % (fam, kind, cap, prior))
+                    sc.reset("c16-%s-%s-cap%d-%s-req%d" % (fam, kind, cap, prior, nth))
                     n += 1
                     init = sc.ctr_init if fam == "ctr" else sc.par_init
                     cleanup = sc.ctr_cleanup if fam == "ctr" else sc.par_cleanup
@@ -1131,7 +1154,7 @@ def gen_c16(seed, tier, caps):
                         cleanup(kind, 0)
                     if prior == "failed":
                         init(kind, 0, cap=cap, fail=1, prefill=0x33)
-                    init(kind, 0, cap=cap, fail=1, prefill=pre)
+                    init(kind, 0, cap=cap, fail=nth, prefill=pre)
                     sc.quiesce()                       # nothing leaked
                     if sc.rng.random() < 0.5:
                         cleanup(kind, 0)               # cleanup is safe ...
@@ -1226,21 +1249,31 @@ def check_C16(work, tier, seed):
     out = Outcome()
     life_mc(work, out, "C16", tier)
     b = build(work)
-    sc, n = gen_c16(seed, tier, CAPS)
+    # pass 1: how many allocation requests does each init make on each back end?
+    na_map = {}
+    for ln in run_drv(b, gen_c16_probe(CAPS).text()):
+        if '_init"' in ln:
+            ev = json.loads(ln)
+            fam = "ctr" if ev["e"] == "ctr_init" else "par"
+            na_map[(fam, ev["k"], ev.get("cap", 2))] = max(1, ev.get("na", 1))
+    out.notes.append("allocation requests per init: %s" % sorted(set(na_map.values())))
+    sc, n = gen_c16(seed, tier, CAPS, na_map)
     lines = conform(work, b, "C16", seed, sc.text(), out)
     for ln in lines:
-        if '"fail":1' in ln:
+        if '"failed":1' in ln:
             out.distinct.add(hash(ln))
-    out.samples = sample_events([x for x in lines if '"fail":1' in x], maxlen=240)
+    out.samples = sample_events([x for x in lines if '"failed":1' in x], maxlen=240)
     return out, dict(
         level="fault_enumeration",
         exhaustive=True,
         rule="Complete enumeration: each of the six init functions x each back end (cap) x prior handle content "
-             "{zero, 0xFF, 0x5A, 0xA5, image of a cleaned-up object, image of a failed init} x failure of the one "
-             "allocation each init makes (%d fault cases); then quiesce (no leak), cleanup and every other call in "
+             "{zero, 0xFF, 0x5A, 0xA5, image of a cleaned-up object, image of a failed init} x failure of EACH "
+             "allocation request the init makes (counted on a successful init of the same function and back end; "
+             "%d fault cases); then quiesce (no leak), cleanup and every other call in "
              "both orders (must be safe and return 0), successful re-init and normal use. Validated by TLC against "
              "the contract (InitOutcome: failed == dead). distinct = distinct failing-init events." % n,
-        assumptions=LIFE_ASSUME + ["each init makes exactly one allocation request (observed: na = 1 in every init event)"])
+        assumptions=LIFE_ASSUME + ["the number of allocation requests of an init does not depend on the prior content "
+                                   "of the caller's object (it is measured on a zeroed one)"])
 
 
 def check_C17(work, tier, seed):
@@ -1304,6 +1337,24 @@ def check_C13(work, tier, seed):
     run_mc(work, out, "MC_Probe", "MCneg_Probe_shipped", expect_fail=True)
     b = build(work)
     lines = conform(work, b, "C13", seed, gen_c13(seed, tier).text(), out)
+    # fresh processes in which the VERY FIRST library call is each init function in turn
+    # (no env/layout call before it), followed by the other inits: a probe result that is
+    # cached, or that depends on which probe ran first, shows as an unstable selection
+    firsts = [(fam, kind) for fam in ("ctr", "par") for kind in ("s128", "s64", "mantis")]
+    env_line = lines[0]
+    for fam, kind in firsts:
+        t = ["reset sc=c13-first-%s-%s" % (fam, kind)]
+        order = [(fam, kind)] + [x for x in firsts if x != (fam, kind)] + [(fam, kind)]
+        for i, (f2, k2) in enumerate(order):
+            t.append("%s_init k=%s o=%d" % (f2, k2, i % 8))
+        for i, (f2, k2) in enumerate(order):
+            t.append("%s_cleanup k=%s o=%d" % (f2, k2, i % 8))
+        fl = run_drv(b, "\n".join(t) + "\n")
+        out.events += len(fl)
+        sub = Outcome()
+        conform_lines(work, "C13", seed, [env_line] + fl, "env\n" + "\n".join(t) + "\n", sub, tag="-first-%s-%s" % (fam, kind))
+        out.merge(sub)
+        lines += fl
     # the hook-free build must select the same back ends (the cap defaults to "no cap")
     b0 = build(work, name="nohook", hooks=False)
     sc0 = gen_c13(seed, "quick")
